@@ -227,3 +227,12 @@ def _f22(f, pid, case, clause, ctx):
 @matcher("store_twin_targets_equal_content")
 def _f24(f, pid, case, clause, ctx):
     return bool(case.get("call", {}).get("twin")) and clause == "target-differs-from-source-written-into-region"
+
+
+@matcher("reshape_zero_size_several_chunks")
+def _f25(f, pid, case, clause, ctx):
+    prog = case.get("prog", [])
+    if not any(a.get("a") == "Reshape" and 0 in a.get("shape", []) and any(v > 1 for v in a["shape"]) for a in prog):
+        return False
+    keys = ("shape", "value", "block", "rank", "grid")
+    return any(k in clause for k in keys)
